@@ -3,6 +3,7 @@ package model
 import (
 	"encoding/json"
 	"fmt"
+	"regexp"
 	"strings"
 	"sync"
 	"time"
@@ -117,8 +118,30 @@ func Time(t time.Time) *time.Time {
 	return &t
 }
 
+// Params returns the parameters as one string in the syntax that the DAG
+// loader parses (bare words, "quoted values", NAME=value, NAME="quoted
+// value"), so that loading the DAG again with the recorded string - retry,
+// restart - yields the same parameters.
 func Params(params []string) string {
-	return strings.Join(params, " ")
+	quoted := make([]string, 0, len(params))
+	for _, p := range params {
+		quoted = append(quoted, quoteParam(p))
+	}
+	return strings.Join(quoted, " ")
+}
+
+// paramNameRegex matches the NAME= prefix of a named parameter.
+var paramNameRegex = regexp.MustCompile("^[^\\s=\"`]+=")
+
+// quoteParam quotes the value of a parameter if the loader would otherwise
+// split or alter it.
+func quoteParam(param string) string {
+	name := paramNameRegex.FindString(param)
+	value := param[len(name):]
+	if value != "" && !strings.ContainsAny(value, " \t\n\f\r\"`") {
+		return param
+	}
+	return name + `"` + strings.ReplaceAll(value, `"`, `\"`) + `"`
 }
 
 type PID int
